@@ -46,3 +46,7 @@ check("C12", "model_checking",
 check("C13", "model_checking",
       "Every checksum computed by the real codec over (pseudo header +) data is recomputed by TLC with Checksum!Rfc1071 over the logged 16-bit words and the datagram with the checksum inserted must fold to 0xFFFF; Paris datagrams captured from the real Channel must carry the sequence in the checksum field and verify; the swap lemma is model-checked for all 2^16 sequences.",
       TRUSTED, "TLC model checking of the Paris swap lemma (spec/Checksum.tla) + TLC trace validation with spec/mon/MonPacket.tla (C13_Value/Verifies/Paris)", "7 C13")
+
+check("C14", "model_checking",
+      "Model: TLC checks the transcribed RFC 4884 splitter (Ext!Split) for every length attribute x message length x word size: both parts inside the message, disjoint, compliant / legacy / plain messages recovered, object iteration bounded. Implementation: messages built from abstract descriptions by the independent builder are parsed with the real views (objects, MPLS members, EXP/S/TTL compared exactly; corruptions must stay in bounds and terminate) and end to end through the real receive path in both extension modes against the simulated router's ground truth.",
+      TRUSTED, "TLC model checking of spec/Ext.tla + TLC trace validation with spec/mon/MonExt.tla (C14_Bounds/Terminates/Datagram/Objects) and MonLoop C14_E2E", "7 C14")
